@@ -6,7 +6,7 @@ S=$(mktemp -d /tmp/seedrun.XXXXXX)
 rsync -a --exclude target --exclude .git /repo/ $S/
 if ! (cd $S && patch -p1 -s --no-backup-if-mismatch < $PATCH) >/dev/null 2>&1; then echo "PATCH-FAILED $PATCH"; rm -rf $S; exit 3; fi
 for P in "$@"; do
-  out=$(cd /verif && CRRL_REPO=$S CRRL_EVIDENCE_DIR=$S/evidence CRRL_CONFIGS=${CONFIGS:-} ./check $P --tier ${TIER:-quick} 2>&1)
+  out=$(cd "$(dirname "$0")/.." && CRRL_REPO=$S CRRL_EVIDENCE_DIR=$S/evidence CRRL_CONFIGS=${CONFIGS:-} ./check $P --tier ${TIER:-quick} 2>&1)
   nv=$(echo "$out" | grep -c "^VIOLATION")
   echo "== $P violations=$nv"
   echo "$out" | grep -A3 "^VIOLATION" | grep -v "^--" | cut -c1-330 | head -${MAXL:-8}
